@@ -38,7 +38,23 @@ type Ref struct {
 	Removed []json.RawMessage      `json:"removed"` // serialized groups removed earlier (candidates for re-adding)
 	Ops     []string               `json:"ops"`     // operation log of the whole sequence (witness)
 	Pre     map[string]string      `json:"pre"`     // id -> PreGroup id as added (for the link check)
+	Hash    map[string]string      `json:"hash"`    // id -> header hash of the record that is on the chain (as added last)
 	Groups  map[string]types.Group `json:"-"`
+}
+
+// add appends a group to the reference list and remembers which record (header hash) it is.
+func (f *Ref) add(id []byte, h *types.GroupHeader) {
+	f.List = append(f.List, hx(id))
+	f.note(id, h)
+}
+
+func (f *Ref) note(id []byte, h *types.GroupHeader) {
+	if f.Hash == nil {
+		f.Hash = map[string]string{}
+	}
+	if h != nil {
+		f.Hash[hx(id)] = hx(h.Hash.Bytes())
+	}
 }
 
 type Witness struct {
@@ -231,6 +247,15 @@ func (k *walker) check(when string) {
 		g := gc.GetGroupById(b)
 		if g == nil || !bytes.Equal(g.Id, b) {
 			k.fail("C19:by-id:listed-group-not-retrievable", fmt.Sprintf("%s: GetGroupById(%s) (list position %d) = %s", when, id, i, idOf(g)))
+		} else if want, ok := k.ref.Hash[id]; ok {
+			// the record is the one that was added last under this id (an id can come back with another header after a fork switch)
+			k.r.Count("record_content_checks", 2)
+			if g.Header == nil || hx(g.Header.Hash.Bytes()) != want {
+				k.fail("C19:by-id:record-is-not-the-added-group", fmt.Sprintf("%s: GetGroupById(%s) (list position %d) returns a record with another header hash than the group that was added", when, id, i))
+			}
+			if hg := gc.GetGroupByHeight(uint64(i)); hg != nil && bytes.Equal(hg.Id, b) && (hg.Header == nil || hx(hg.Header.Hash.Bytes()) != want) {
+				k.fail("C19:height-index:record-is-not-the-added-group", fmt.Sprintf("%s: GetGroupByHeight(%d) returns a record of %s with another header hash than the group that was added", when, i, id))
+			}
 		}
 	}
 	// sync view
@@ -297,7 +322,7 @@ func child(args []string) {
 				fmt.Println("MACHINERY: genesis group missing at height", i)
 				os.Exit(3)
 			}
-			ref.List = append(ref.List, hx(g.Id))
+			ref.add(g.Id, g.Header)
 		}
 	}
 	w := &Witness{Seq: seq, Segs: segs, OpsN: nops}
@@ -321,6 +346,7 @@ func child(args []string) {
 				continue
 			}
 			nb := 1 + rng.Intn(3)
+			reuse := rng.Intn(3) == 0
 			shape := rng.Intn(4) // 0,1: linear branch; 2: one group links to an earlier branch group / the ancestor; 3: one group links to a random id
 			var branch []*types.Group
 			pre := anc.Id
@@ -341,10 +367,16 @@ func child(args []string) {
 				g.Header.CreateBlockHash = core.GetBlockChain().TopBlock().Hash.Bytes()
 				g.Header.Hash = g.Header.GenHash()
 				g.GroupHeight = uint64(h + 1 + i)
+				if shape <= 1 && reuse && h+1+i < len(ref.List) {
+					// the group that is on the chain at this height comes back on the other branch
+					// with another header (same id, other predecessor / content)
+					g.Id = listedID(h + 1 + i)
+					r.Count("fork_branch_groups_reusing_a_removed_id", 1)
+				}
 				branch = append(branch, g)
 				pre = g.Id
 			}
-			logop(fmt.Sprintf("fork-switch ancestor=%d branch=%d shape=%d", h, nb, shape))
+			logop(fmt.Sprintf("fork-switch ancestor=%d branch=%d shape=%d reuse=%v", h, nb, shape, reuse))
 			forkErr, onChain := core.VerifGroupForkSwitch(anc, branch)
 			r.Count("fork_switches", 1)
 			if forkErr != nil {
@@ -362,7 +394,7 @@ func child(args []string) {
 						complete = false
 						break
 					}
-					ref.List = append(ref.List, hx(g.Id))
+					ref.add(g.Id, g.Header)
 					tip = g.Id
 					r.Count("adds_accepted", 1)
 				}
@@ -403,6 +435,9 @@ func child(args []string) {
 				for _, c := range cands {
 					if uint64(len(c)) == gc.Count() && c[len(c)-1] == hx(last.Id) {
 						ref.List, matched = c, true
+						for _, g := range branch {
+							ref.note(g.Id, g.Header)
+						}
 						break
 					}
 				}
@@ -457,7 +492,7 @@ func child(args []string) {
 			if forkErr == nil {
 				ref.List = ref.List[:h+1]
 				for _, g := range branch {
-					ref.List = append(ref.List, hx(g.Id))
+					ref.add(g.Id, g.Header)
 				}
 			}
 		case sqlFaultDue(rng, op): // the SQL side index cannot be written while the group is added
@@ -468,7 +503,7 @@ func child(args []string) {
 			// judged against what the chain itself says afterwards: either the group is completely on
 			// the chain or not at all; a half-done addition fails the walker under either reference
 			if last := gc.LastGroup(); added || (last != nil && bytes.Equal(last.Id, g.Id)) || gc.Count() == uint64(len(ref.List))+1 {
-				ref.List = append(ref.List, hx(g.Id))
+				ref.add(g.Id, g.Header)
 				r.Count("adds_accepted", 1)
 				r.Count("sql_fault_group_on_chain", 1)
 			}
@@ -488,7 +523,7 @@ func child(args []string) {
 			atomic.StoreInt32(&slowCheck, 0)
 			r.Count("concurrent_episodes", 1)
 			if e1 == nil || e2 == nil {
-				ref.List = append(ref.List, hx(g.Id))
+				ref.add(g.Id, g.Header)
 				r.Count("adds_accepted", 1)
 			}
 			if e1 == nil && e2 == nil {
@@ -520,7 +555,7 @@ func child(args []string) {
 				// group's predecessor is no longer the last group), so the list is unchanged
 				r.Count("concurrent_add_then_remove", 1)
 			case e1 == nil:
-				ref.List = append(ref.List, hx(g.Id))
+				ref.add(g.Id, g.Header)
 				r.Count("adds_accepted", 1)
 			case removed:
 				ref.List = ref.List[:len(ref.List)-1]
@@ -531,7 +566,7 @@ func child(args []string) {
 			logop("add-valid " + hx(g.Id))
 			err := gc.AddGroup(g)
 			if err == nil {
-				ref.List = append(ref.List, hx(g.Id))
+				ref.add(g.Id, g.Header)
 				r.Count("adds_accepted", 1)
 			} else {
 				r.Count("valid_adds_rejected", 1)
@@ -548,7 +583,7 @@ func child(args []string) {
 			logop("add-wrong-predecessor " + hx(g.Id))
 			if err := gc.AddGroup(g); err == nil {
 				k.fail("C19:add:wrong-predecessor-accepted", "AddGroup accepted a group whose PreGroup is not the last group")
-				ref.List = append(ref.List, hx(g.Id))
+				ref.add(g.Id, g.Header)
 			} else {
 				r.Count("adds_rejected_wrong_predecessor", 1)
 			}
@@ -557,7 +592,7 @@ func child(args []string) {
 			logop("add-unknown-parent " + hx(g.Id))
 			if err := gc.AddGroup(g); err == nil {
 				k.fail("C19:add:unknown-parent-accepted", "AddGroup accepted a group whose parent is not on the chain")
-				ref.List = append(ref.List, hx(g.Id))
+				ref.add(g.Id, g.Header)
 			} else {
 				r.Count("adds_rejected_unknown_parent", 1)
 			}
@@ -576,7 +611,7 @@ func child(args []string) {
 			logop("add-consensus-rejected " + hx(g.Id))
 			if err := gc.AddGroup(g); err == nil {
 				k.fail("C19:add:consensus-rejected-accepted", "AddGroup stored a group the consensus check rejected")
-				ref.List = append(ref.List, hx(g.Id))
+				ref.add(g.Id, g.Header)
 			} else {
 				r.Count("adds_rejected_consensus", 1)
 			}
@@ -612,6 +647,29 @@ func child(args []string) {
 				}
 				ref.List = ref.List[:h+1]
 			}
+		case choice >= 92 && choice < 96 && len(ref.Removed) > 0: // a removed id comes back with another header (the same group behind another predecessor on the other branch)
+			var old types.Group
+			json.Unmarshal(ref.Removed[rng.Intn(len(ref.Removed))], &old)
+			onChain := false
+			for _, id := range ref.List {
+				if id == hx(old.Id) {
+					onChain = true
+				}
+			}
+			if onChain {
+				continue
+			}
+			g := newGroup(rng, lastID, parent, uint64(10+op))
+			g.Id = old.Id
+			logop("add-removed-id-with-new-header " + hx(g.Id))
+			if err := gc.AddGroup(g); err == nil {
+				ref.add(g.Id, g.Header)
+				r.Count("adds_accepted", 1)
+				r.Count("removed_ids_readded_with_new_header", 1)
+			} else {
+				r.Count("valid_adds_rejected", 1)
+				r.Note("removed id with a new header rejected: %v", err)
+			}
 		default: // re-add a group removed earlier (valid only when it was removed from this very position)
 			if len(ref.Removed) == 0 {
 				continue
@@ -625,7 +683,7 @@ func child(args []string) {
 				if !valid {
 					k.fail("C19:add:wrong-predecessor-accepted", "AddGroup re-accepted a removed group whose PreGroup is not the last group")
 				}
-				ref.List = append(ref.List, hx(g.Id))
+				ref.add(g.Id, g.Header)
 				r.Count("readds_accepted", 1)
 			} else if valid {
 				r.Count("valid_adds_rejected", 1)
